@@ -73,8 +73,10 @@ function guarded(factory, ms) {
     });
 }
 
+const HANG_MS = parseInt(process.env.VERIF_JS_HANG_MS || '10000');
+
 async function read_case(c) {
-    return guarded(() => read_case_inner(c), 3000);
+    return guarded(() => read_case_inner(c), HANG_MS);
 }
 
 async function read_case_inner(c) {
@@ -267,7 +269,7 @@ async function handle(c) {
         case 'read': return await read_case(c);
         case 'readcomp': return await readcomp_case(c);
         case 'lasso': return await lasso_case(c);
-        case 'query_csv': return await guarded(() => query_csv_case(c), 5000);
+        case 'query_csv': return await guarded(() => query_csv_case(c), HANG_MS);
         case 'write': return await write_case(c);
         case 'query': return await query_case(c);
         case 'header': {
